@@ -73,7 +73,7 @@ Qed.
 Lemma add_views now j r c : let '(c', sgs) := add now j r c in
   incl (view_of c') (r :: view_of c) /\ forall sg v, In (sg, v) sgs -> incl v (view_of c).
 Proof.
-  unfold add, view_of. destruct (scan r [] (c_entries c)) as [kept sg] eqn:E. destruct (scan_views r _ _ _ _ E) as [A B]. cbn [app] in A, B.
+  unfold add, view_of. rewrite rearm_match. destruct (scan r [] (c_entries c)) as [kept sg] eqn:E. destruct (scan_views r _ _ _ _ E) as [A B]. cbn [app] in A, B.
   destruct (r_ttl r =? 0)%N; [split; [cbn [c_entries]; apply incl_tl, A|exact B]|].
   assert (X : incl (map e_rec (kept ++ [mkEntry r (triggers now j (r_ttl r))])) (r :: map e_rec (c_entries c))).
   { rewrite map_app. apply incl_app; [apply incl_tl, A|]. intros x [<-|[]]. left. reflexivity. }
